@@ -33,7 +33,8 @@ func ip(i int32) *int32    { return &i }
 func genErrM(rt *rapid.T) *dyn.ErrM {
 	e := &dyn.ErrM{}
 	text := func(label string) *string {
-		return sp(rapid.SampledFrom([]string{"boom", "", "not found: é(x),y:'z'%", "line1\nline2", "\"quoted\"\\", "a very long message " + strings.Repeat("x", 300), "a message longer than a network read buffer " + strings.Repeat("0123456789abcdef", 600) + " END"}).Draw(rt, label))
+		return sp(rapid.SampledFrom([]string{"boom", "", "not found: é(x),y:'z'%", "line1\nline2", "\"quoted\"\\", "a very long message " + strings.Repeat("x", 300), "a message longer than a network read buffer " + strings.Repeat("0123456789abcdef", 600) + " END",
+			"a text longer than 16 KiB " + strings.Repeat("at pkg.Func(file.go:12)\n\t", 1500) + "END"}).Draw(rt, label))
 	}
 	if rapid.IntRange(0, 3).Draw(rt, "hasStatus") > 0 {
 		e.Status = ip(int32(rapid.SampledFrom([]int{400, 401, 403, 404, 409, 412, 422, 429, 500, 501, 503, 599}).Draw(rt, "status")))
